@@ -19,7 +19,7 @@ ASSUMPTIONS = ["a chunk's `dirty = true` store and File::set_len are the only wa
                "(derived from rabuf's extracted bodies)", "rabuf::RaBuf<T> is only instantiated with std::fs::File (checked)"]
 
 
-def check(ctx):
+def _check_own(ctx):
     prog = ctx.prog
     R = Roles(prog)
     io = io_effects(prog)
@@ -73,15 +73,23 @@ def check(ctx):
                     flds = s["rhs"]["fields"]
                     from .fields import fname as _fname
                     if _fname(prog, "INNER.dirty") in flds:
-                        init_vals.append(const_val(s["rhs"]["ops"][flds.index(_fname(prog, "INNER.dirty"))]))
+                        op_ = s["rhs"]["ops"][flds.index(_fname(prog, "INNER.dirty"))]
+                        v_ = const_val(op_)
+                        if v_ is None and op_.get("k") in ("cp", "mv"):
+                            from .util import const_origin
+                            v_ = const_origin(origins(prog, io_open, op_, at=b))      # `let dirty = true; Self { dirty, .. }`
+                        init_vals.append(v_)
         opens_write = bool(io.may[io_open.id] & WRITE_ATOMS)
         flushed = "BUF_FLUSH" in _flush_effects(prog).must.get(io_open.id, set())
-        ok = bool(init_vals) and all(v is not False for v in init_vals) or flushed or not opens_write
+        # the only forms that can be decided here: the flag starts as the constant `true`, or the open flushes what it
+        # wrote.  A flag computed at run time ("were the files new?") is not accepted: whether it is true whenever the open
+        # wrote a header depends on when the computation happens relative to the creation of the files.
+        ok = bool(init_vals) and all(v is True for v in init_vals) or flushed or not opens_write
         ctx.check(ok, "dirty-raised", "open",
                   "opening a map can create and initialise its three files (write-class effects %s) but the handle starts with "
                   "dirty = false and the open does not flush: flush/sync on a created-never-updated map is a no-op, so the "
                   "directory at that moment does not hold a valid empty map" % sorted(io.may[io_open.id] & WRITE_ATOMS),
-                  where=where(io_open), expected="initial dirty flag not the constant false, or a must-flush in the open")
+                  where=where(io_open), expected="initial dirty flag is the constant true, or a must-flush in the open")
 
     # ------------------------------------------------------------------ clause 2
     fields = fp.file_fields(prog)
@@ -271,3 +279,10 @@ def _fields_read(fn):
                         if e.startswith("f:" + FILEDBINNER + "."):
                             out.add(e.rsplit(".", 1)[1])
     return out
+
+
+def check(ctx):
+    _check_own(ctx)
+    from .engine import import_rules
+    # the database-level sync walks the registries: it reaches the handle the caller holds only if a name is registered once
+    import_rules(ctx, "c11", {"registry-column", "lookup-before-create", "registry-grow-only"})
